@@ -55,7 +55,7 @@ ASYNC_VARIANTS = ("coro", "agen")
 #  AG2 @asynccontextmanager with an inner `async with A` around its yield
 SYNC_KINDS = ("S", "Sw", "Sr", "Sq", "G", "Gw", "G2")
 ASYNC_KINDS = ("A", "Aw", "Ae", "Ax", "A0", "Ar", "AG", "AGw", "AG2")
-TARGETS = ("n", "v", "a", "s")  # none / local name / attribute / subscript
+TARGETS = ("n", "v", "a", "s", "m")  # none / local name / attribute / subscript / name, expression over two lines
 
 MAX_VEC = 7          # branch vector length bound (c() answers False beyond it)
 STEP_CAP = 3000      # events per run before the run is aborted
@@ -121,7 +121,7 @@ def _gen_items(rng, variant, is_async):
             kind = rng.choice(("A", "A", "A", "Aw", "Ae", "Ax", "A0", "Ar", "AG", "AGw", "AG2"))
         else:
             kind = rng.choice(("S", "S", "S", "Sw", "Sr", "Sq", "G", "Gw", "G2"))
-        items.append([kind, rng.choice(("n", "n", "v", "v", "v", "a", "s"))])
+        items.append([kind, rng.choice(("n", "n", "n", "v", "v", "v", "v", "a", "s", "m"))])
     return items
 
 
@@ -425,6 +425,7 @@ class _Emit:
         self.k = 100
         self.loopvar = 0
         self.lines = []
+        self.sites = {}          # site -> [line (1-based), item index, kind, is_async]
 
     def susp(self, agen_yield=False):
         self.k += 1
@@ -448,13 +449,16 @@ class _Emit:
         if k == "with":
             is_async = s[1] and v in ASYNC_VARIANTS
             parts = []
-            for kind, tgt in s[2]:
+            for item_i, (kind, tgt) in enumerate(s[2]):
                 if not is_async and kind in ASYNC_KINDS:
                     kind = {"A": "S", "Aw": "Sw", "Ae": "S", "Ax": "S", "A0": "S", "Ar": "Sr",
                             "AG": "G", "AGw": "Gw", "AG2": "G2"}[kind]
                 self.site += 1
+                self.sites[self.site] = [len(self.lines) + 1 + sum(p.count("\n") for p in parts), item_i, kind, bool(is_async)]
                 e = "M(%r, %d)" % (kind, self.site)
-                if tgt == "v":
+                if tgt == "m":
+                    e = "M(%r,\n%s        %d) as x%d" % (kind, ind, self.site, self.site)
+                elif tgt == "v":
                     e += " as x%d" % self.site
                 elif tgt == "a":
                     e += " as ns.a%d" % self.site
@@ -542,16 +546,46 @@ class _Emit:
 
 
 def emit(prog):
+    return emit_with_sites(prog)[0]
+
+
+def emit_with_sites(prog):
+    """(source, {site: [line, item index, kind, is_async]}) of a program.  Optional prog["flags"]: doc (docstring first, so that None is not
+    constant 0), consts=n (n distinct constants before the body: EXTENDED_ARG on later
+    LOAD_CONST None and on jumps), closure=1 (parameters, *args/**kw, cell variables) or 2 (also
+    free variables: prog is a closure)."""
     v = prog["variant"]
+    fl = prog.get("flags") or {}
     em = _Emit(v)
-    head = "async def prog():" if v in ASYNC_VARIANTS else "def prog():"
-    em.lines.append(head)
-    em.block(prog["body"], "    ")
-    if v == "gen" and not any(" yield " in l or "(yield" in l for l in em.lines):
-        em.lines.append("    r((yield 99))")
+    kw = "async def" if v in ASYNC_VARIANTS else "def"
+    closure = fl.get("closure", 0)
+    base = "        " if closure == 2 else "    "
+    L = em.lines.append
+    if closure == 2:
+        L("def _outer():")
+        L("    fv1 = 1")
+        L("    fv2 = 2")
+        L("    %s prog(arg0=None, *va, kw0=1, **kws):" % kw)
+    elif closure == 1:
+        L("%s prog(arg0=None, *va, kw0=1, **kws):" % kw)
+    else:
+        L("%s prog():" % kw)
+    if fl.get("doc"):
+        L(base + '"""docstring: takes constant slot 0"""')
+    if closure:
+        L(base + ("cellv = fv1" if closure == 2 else "cellv = 0"))
+        L(base + ("lam = lambda: (cellv, arg0, fv2)" if closure == 2 else "lam = lambda: (cellv, arg0)"))
+    for i in range(fl.get("consts", 0)):
+        L(base + "k0 = %d.5" % i)
+    em.block(prog["body"], base)
+    if v == "gen" and not any("(yield" in l for l in em.lines):
+        L(base + "r((yield 99))")
     if v == "agen" and not any("(yield" in l for l in em.lines):
-        em.lines.append("    r((yield 99))")
-    return "\n".join(em.lines) + "\n"
+        L(base + "r((yield 99))")
+    if closure == 2:
+        L("    return prog")
+        L("prog = _outer()")
+    return "\n".join(em.lines) + "\n", em.sites
 
 
 # =========================================================================================
@@ -582,6 +616,7 @@ class Run:
         self.mgr_refs = []
         self.aborted = False
         self.main_obj = None
+        self.driver_frame = None
         self.result = None
 
     def tick(self):
@@ -707,6 +742,7 @@ class SyncMgr(object):
 
     def __init__(self, R, kind, site, serial, owner):
         self.kind = kind
+        self.site = site
         self.owner = owner
         self._pl = "%s@%d#%d" % (kind, site, serial)
         self.serial = serial
@@ -960,6 +996,7 @@ def M(kind, site, owner="main"):
         m = fn(box)
         box.mgr = m
         m._pl = "%s@%d#%d" % (kind, site, serial)
+        m.site = site
         if kind in ("G2", "AG2"):
             R.truth[("g", serial)] = []
             R.foi.append(("gen", m.gen, ("g", serial)))
@@ -977,12 +1014,12 @@ _COMPILED = {}
 
 class Program(object):
     """A compiled program: source, function, code object."""
-    __slots__ = ("desc", "src", "fn", "code", "pid")
+    __slots__ = ("desc", "src", "fn", "code", "pid", "sites")
 
     def __init__(self, desc, pid):
         self.desc = desc
         self.pid = pid
-        self.src = emit(desc)
+        self.src, self.sites = emit_with_sites(desc)
         ns = make_namespace()
         code = compile(self.src, "<prog:%s>" % pid, "exec")
         exec(code, ns)
@@ -1010,6 +1047,7 @@ def execute(prog, vec, throw_at=None, on_probe=None, on_suspend=None):
     prev = _CUR[0]
     _CUR[0] = R
     R.foi.append(("code", prog.code, "main"))
+    R.driver_frame = sys._getframe(0)
     try:
         v = prog.variant
         if v == "sync":
@@ -1023,6 +1061,10 @@ def execute(prog, vec, throw_at=None, on_probe=None, on_suspend=None):
         R.log.append(("result",) + tuple(R.result))
     finally:
         _CUR[0] = prev
+        R.driver_frame = None
+        g = prog.fn.__globals__
+        g["ns"].__dict__.clear()
+        g["d"].clear()
     return R
 
 
@@ -1033,6 +1075,8 @@ def _drive_sync(R, prog):
         return ("raise", type(ex).__name__)
     except Abort:
         return ("abort", None)
+    except Exception as ex:
+        return ("error", type(ex).__name__)
 
 
 def _suspended(R, obj, how, y):
@@ -1072,6 +1116,8 @@ def _drive_gen(R, g, how):
             return ("raise", type(ex).__name__)
         except Abort:
             return ("abort", None)
+        except Exception as ex:  # not expected from generated programs; keeps twin runs comparable
+            return ("error", type(ex).__name__)
     finally:
         R.aborted = R.aborted or False
         try:
@@ -1110,6 +1156,8 @@ def _drive_agen(R, ag):
             return ("raise", type(ex).__name__)
         except Abort:
             return ("abort", None)
+        except Exception as ex:  # not expected from generated programs; keeps twin runs comparable
+            return ("error", type(ex).__name__)
     finally:
         try:
             c = ag.aclose()
@@ -1248,8 +1296,7 @@ class Collector(object):
         self.by_family = {}
         self.codes = set()
         self.state_hist = {}
-        self.prog = None
-        self.vec = None
+        self.observer = None     # callable(record) for every observation of the program's own frame
 
     def count(self, key, n=1):
         self.counts[key] = self.counts.get(key, 0) + n
@@ -1263,6 +1310,17 @@ class Collector(object):
         for lab in constructs(prog.desc):
             self.by_construct[lab] = self.by_construct.get(lab, 0) + 1
 
+    def emit_state(self, prog, R, pyframe, running, got):
+        """Feed one observed state of the program's own frame to the observer (used to abstract
+        states for the Coq model): sites refer to prog.sites / the M(kind, site) calls."""
+        if self.observer is None:
+            return
+        self.observer({
+            "pid": prog.pid, "code": prog.code, "lasti": pyframe.f_lasti, "running": running,
+            "vector": list(R.vec), "throw_at": R.throw_at,
+            "truth": [[getattr(m, "site", None), bool(a), ph] for (m, a, ph) in R.truth.get("main", ())],
+            "reported": [[getattr(m, "site", None) if m is not None else None, a, x] for (m, a, x) in got]})
+
     def note_state(self, R, owner):
         t = R.truth.get(owner, ())
         key = "act=%d ent=%d exi=%d" % (sum(1 for e in t if e[2] == "active"),
@@ -1275,7 +1333,7 @@ class Collector(object):
         sig = classify_violation(what, R, prog, extra)
         if len(self.violations) < 40 or (sig and sum(1 for v in self.violations if v.get("sig") == sig) < 3):
             inp = {"program": prog.src, "variant": prog.variant, "family": prog.desc.get("family"),
-                   "tag": prog.desc.get("tag"), "tree": prog.desc["body"],
+                   "tag": prog.desc.get("tag"), "tree": prog.desc["body"], "flags": prog.desc.get("flags"),
                    "vector": list(R.vec), "throw_at": R.throw_at, "python": "%d.%d" % PY_VERSION}
             inp.update(extra)
             v = {"what": "[%s] %s" % (self.leg, what), "input": inp}
@@ -1324,6 +1382,8 @@ def observe_suspended(col, prog, R, obj, how, idx, mode):
         col.note_state(R, owner)
         got = view(fr.contexts)
         col.evaluations += 1
+        if owner == "main":
+            col.emit_state(prog, R, fr.pyframe, False, got)
         if mode == "trickery":
             exp = R.expected(owner)
             if not same_view(got, exp):
@@ -1387,25 +1447,36 @@ def observe_suspended(col, prog, R, obj, how, idx, mode):
                 col.violation("referents mode produced varname/start_line (trickery still active?)", R, prog, **where)
 
 
-def observe_running(col, prog, R, where, mgr, idx, outer_frame):
-    """C02 check from a probe call (running frames)."""
+def _snap(api, outer_frame):
+    """Tiny on purpose: this frame and its callers up to the program are part of every result."""
     import stackscope
+    if api == 0:
+        return stackscope.extract_since(None), sys._getframe(0)
+    if api == 1:
+        return stackscope.extract(stackscope.StackSlice(outer=outer_frame), with_contexts=True), sys._getframe(0)
+    return stackscope.extract_since(outer_frame), sys._getframe(0)
+
+
+def snap_running(R, idx):
+    api = idx % 12
+    api = 0 if api == 0 else (1 if api < 6 else 2)
+    try:
+        st, caller = _snap(api, R.driver_frame)
+        return st, caller, api, None
+    except BaseException as ex:
+        return None, None, api, ex
+
+
+def observe_running(col, prog, R, where, mgr, idx, snap):
+    """C02 check from a probe call (running frames); `snap` was taken by snap_running() from
+    a small frame below the probe."""
     ll = _ll()
     col.count("observation_points")
     col.count("probe:" + where)
     info = {"probe_index": idx, "probe_where": where, "probe_mgr": mgr_label(mgr) if mgr is not None else None}
-    api = idx % 8
-    try:
-        if api == 0:
-            st = stackscope.extract_since(None)
-            info["api"] = "extract_since(None)"
-        elif api in (1, 2, 3):
-            st = stackscope.extract(stackscope.StackSlice(outer=outer_frame), with_contexts=True)
-            info["api"] = "extract(StackSlice(outer=driver))"
-        else:
-            st = stackscope.extract_since(outer_frame)
-            info["api"] = "extract_since(driver)"
-    except BaseException as ex:
+    st, caller, api, ex = snap
+    info["api"] = ("extract_since(None)", "extract(StackSlice(outer=driver))", "extract_since(driver)")[api]
+    if ex is not None:
         col.evaluations += 1
         col.violation("extract raised %r" % (ex,), R, prog, **info)
         return
@@ -1427,6 +1498,8 @@ def observe_running(col, prog, R, where, mgr, idx, outer_frame):
         got = view(fr.contexts)
         exp = R.expected(owner)
         col.evaluations += 1
+        if owner == "main":
+            col.emit_state(prog, R, fr.pyframe, True, got)
         if not same_view(got, exp):
             col.violation("running: contexts of %s frame differ from truth" % (owner,), R, prog,
                           got=show_view(got), expected=show_view(exp), lasti=fr.pyframe.f_lasti, **info)
@@ -1435,7 +1508,7 @@ def observe_running(col, prog, R, where, mgr, idx, outer_frame):
                       frames=[f.pyframe.f_code.co_name for f in st.frames], **info)
         return
     # the innermost frame reported must be the caller of extract (this function)
-    if st.frames and st.frames[-1].pyframe is not sys._getframe(0):
+    if st.frames and st.frames[-1].pyframe is not caller:
         col.violation("innermost frame is not the caller of extract", R, prog, **info)
     # low-level entry point on the running program frame
     fr = st.frames[main_i]
@@ -1457,14 +1530,17 @@ def observe_running(col, prog, R, where, mgr, idx, outer_frame):
 # 6. corpus per tier
 # =========================================================================================
 TIERS = {
-    # matrix_stride: take every n-th matrix program; enum: sizes fully enumerated (stride per size);
+    # matrix_stride: take every n-th matrix program; enum: {size: stride} (1 = exhaustive);
     # random: number of random programs per variant; max_runs: branch vectors per program
-    "quick": dict(matrix_stride=23, enum={2: 1, 3: 9}, random=45, max_nodes=(6, 12), max_runs=24,
-                  throw_every=3, deadline=38.0),
-    "thorough": dict(matrix_stride=1, enum={2: 1, 3: 1, 4: 6}, random=700, max_nodes=(5, 14), max_runs=96,
-                     throw_every=1, deadline=440.0),
-    "tiny": dict(matrix_stride=211, enum={2: 4}, random=4, max_nodes=(5, 8), max_runs=8,
-                 throw_every=4, deadline=20.0),
+    # (exhaustive below that, see explore); running_stride: the running leg (3x dearer per
+    # observation) takes every n-th program; deadline: seconds after which a leg stops early
+    # and reports truncated=True.
+    "quick": dict(special_stride=12, matrix_stride=41, enum={2: 1, 3: 12}, random=26, max_nodes=(6, 12), max_runs=24,
+                  throw_every=3, running_stride=4, deadline=36.0),
+    "thorough": dict(matrix_stride=1, enum={2: 1, 3: 1, 4: 4}, random=500, max_nodes=(5, 14), max_runs=96,
+                     throw_every=1, running_stride=2, deadline=440.0),
+    "tiny": dict(special_stride=60, matrix_stride=211, enum={2: 4}, random=4, max_nodes=(5, 8), max_runs=8,
+                 throw_every=4, running_stride=1, deadline=20.0),
 }
 
 
@@ -1486,8 +1562,50 @@ def corpus(tier, seed, variants=VARIANTS):
     lo, hi = cfg["max_nodes"]
     for variant in variants:
         for _ in range(cfg["random"]):
-            out.append(gen_program(rng, variant, max_nodes=rng.randint(lo, hi), depth=rng.choice((2, 3, 3, 4))))
+            p = gen_program(rng, variant, max_nodes=rng.randint(lo, hi), depth=rng.choice((2, 3, 3, 4)))
+            fl = {}
+            k = rng.random()
+            if k < 0.12:
+                fl["closure"] = 1
+            elif k < 0.24:
+                fl["closure"] = 2
+            if rng.random() < 0.04:
+                fl["doc"] = True
+                fl["consts"] = 260
+            if fl:
+                p["flags"] = fl
+            out.append(p)
+    sp = list(special_programs(variants))
+    st = cfg.get("special_stride", 1)
+    off = seed % st if st > 1 else 0
+    out.extend(p for i, p in enumerate(sp) if (i + off) % st == 0)
     return out
+
+
+def special_programs(variants=VARIANTS):
+    """Shapes the grammar reaches rarely: many constants (EXTENDED_ARG before LOAD_CONST None and
+    on jumps), cell/free variables and extra parameters (frame layout), with-expression over
+    several lines (NOP after the enter sequence on 3.11)."""
+    flagsets = ({"doc": True, "consts": 260}, {"closure": 1}, {"closure": 2},
+                {"closure": 2, "doc": True, "consts": 260})
+    for variant in variants:
+        itemsets = [[["S", "m"]], [["Sw", "v"], ["G", "m"]]]
+        if variant in ASYNC_VARIANTS:
+            itemsets += [[["A", "m"]], [["A", "n"], ["AG", "m"]], [["Aw", "v"]]]
+        for fl in flagsets:
+            for items in itemsets:
+                is_async = items[0][0] in ASYNC_KINDS
+                for ex in ("fall", "c_ret_c", "ret_v", "c_break", "raise_swallow", "c_raise", "try_except_last"):
+                    if ex == "raise_swallow" and not any(k.endswith("w") for k, _ in items):
+                        continue
+                    tail, needs_loop, needs_catch = _matrix_exit(ex)
+                    body = [["with", is_async, items, [["susp"]] + tail], ["susp"]]
+                    if needs_loop:
+                        body = [["for", body, None]]
+                    if needs_catch:
+                        body = [["try", body, [["E12", [["susp"]]]], None, [["susp"]]]]
+                    yield {"variant": variant, "body": body + [["susp"]], "family": "special", "flags": dict(fl),
+                           "tag": "%s/%s/%s" % (sorted(fl.items()), "+".join(k for k, _ in items), ex)}
 
 
 def compile_corpus(tier, seed, variants=VARIANTS):
@@ -1500,7 +1618,16 @@ def compile_corpus(tier, seed, variants=VARIANTS):
             continue
         seen.add(key)
         progs.append(p)
+    # deterministic shuffle: shards and deadline truncation then see an unbiased sample
+    random.Random(seed * 7 + 1).shuffle(progs)
     return progs
+
+
+def _shard(progs, shard):
+    if not shard:
+        return progs
+    k, n = shard
+    return progs[k::n]
 
 
 # =========================================================================================
@@ -1555,16 +1682,17 @@ def _run_suspended(col, progs, cfg, mode, t0):
     return truncated
 
 
-def leg_suspended(tier="quick", seed=0, mode="trickery", variants=VARIANTS, progs=None):
+def leg_suspended(tier="quick", seed=0, mode="trickery", variants=VARIANTS, progs=None, shard=None, observer=None):
     """[C01] every suspension point of every program/branch vector: Frame.contexts and
     lowlevel.contexts_active_in_frame equal the logged truth; no InspectionWarning."""
     t0 = time.time()
     cfg = TIERS[tier]
     ll = _ll()
     col = Collector("suspended" if mode == "trickery" else "referents")
+    col.observer = observer
     if progs is None:
         progs = compile_corpus(tier, seed, variants)
-    prev = ll._can_use_trickery
+    progs = _shard(progs, shard)
     try:
         if mode == "referents":
             ll.set_trickery_enabled(False)
@@ -1576,16 +1704,17 @@ def leg_suspended(tier="quick", seed=0, mode="trickery", variants=VARIANTS, prog
     return col.result(wall=round(time.time() - t0, 2), truncated=truncated, tier=tier, seed=seed, mode=mode)
 
 
-def leg_running(tier="quick", seed=0, variants=VARIANTS, progs=None):
+def leg_running(tier="quick", seed=0, variants=VARIANTS, progs=None, shard=None, observer=None):
     """[C02] probes from call sites inside bodies and inside every enter/exit of the logging
     managers; the program's running frame is located in extract_since()/extract(StackSlice)."""
     t0 = time.time()
     cfg = TIERS[tier]
     col = Collector("running")
+    col.observer = observer
     if progs is None:
         progs = compile_corpus(tier, seed, variants)
+    progs = _shard(progs[::cfg["running_stride"]], shard)
     truncated = False
-    outer = sys._getframe(0)
     with _Warn():
         for pi, prog in enumerate(progs):
             if time.time() - t0 > cfg["deadline"]:
@@ -1594,7 +1723,7 @@ def leg_running(tier="quick", seed=0, variants=VARIANTS, progs=None):
             col.note_program(prog)
 
             def on_probe(R, where, mgr, idx, prog=prog):
-                observe_running(col, prog, R, where, mgr, idx, outer)
+                observe_running(col, prog, R, where, mgr, idx, snap_running(R, idx))
 
             max_susp = [0]
 
@@ -1707,7 +1836,7 @@ def trickery_sequences(col, tier, seed):
 
 
 FAULT_HELPERS = ("analyze_with_blocks", "inspect_frame", "currently_exiting_context",
-                 "_parse_exception_table", "describe_assignment_target")
+                 "_parse_exception_table", "describe_assignment_target", "_parse_varint", "replace")
 
 
 class _Fault(Exception):
@@ -1767,6 +1896,8 @@ def fault_leg(col, progs, tier, seed):
             ks = list(range(1, n + 1))
             if len(ks) > 4 and tier != "thorough":
                 ks = ks[:2] + ks[-2:]
+            elif len(ks) > 12:
+                ks = sorted(set(ks[:3] + ks[-3:] + ks[3:-3:max(1, (len(ks) - 6) // 6)]))
             for k in ks:
                 state.update(name=name, k=k, n={}, armed=True, exc=exc_types[(k + idx) % len(exc_types)])
                 col.evaluations += 1
@@ -1827,17 +1958,19 @@ def fault_leg(col, progs, tier, seed):
     col.counts["fault_helpers"] = sorted(patched)
 
 
-def leg_referents(tier="quick", seed=0, variants=VARIANTS, progs=None):
+def leg_referents(tier="quick", seed=0, variants=VARIANTS, progs=None, shard=None):
     """[C20] referents mode at every suspension point (ordered superset relation), mode switch
     sequences incl. a second thread, faults inside the trickery branch."""
     t0 = time.time()
     if progs is None:
         progs = compile_corpus(tier, seed, variants)
-    res = leg_suspended(tier, seed, mode="referents", variants=variants, progs=progs)
+    res = leg_suspended(tier, seed, mode="referents", variants=variants, progs=progs, shard=shard)
     col = Collector("referents")
-    trickery_sequences(col, tier, seed)
     t1 = time.time()
-    fault_leg(col, progs, tier, seed)
+    if not shard or shard[0] == 0:
+        trickery_sequences(col, tier, seed)
+        t1 = time.time()
+        fault_leg(col, progs, tier, seed)
     extra = col.result()
     res["evaluations"] += extra["evaluations"]
     res["violations"] += extra["violations"]
@@ -1858,14 +1991,16 @@ def main(argv=None):
     ap.add_argument("--tier", default="quick")
     ap.add_argument("--seed", type=int, default=0)
     ap.add_argument("--deadline", type=float, default=None)
+    ap.add_argument("--shard", default=None, help="k/n: only programs k, k+n, ... of the shuffled corpus")
     a = ap.parse_args(argv)
+    shard = tuple(int(x) for x in a.shard.split("/")) if a.shard else None
     if a.deadline:
         TIERS[a.tier] = dict(TIERS[a.tier], deadline=a.deadline)
     out = {}
     progs = compile_corpus(a.tier, a.seed)
     for leg in a.legs.split(","):
         try:
-            out[leg] = LEGS[leg](a.tier, a.seed, progs=progs)
+            out[leg] = LEGS[leg](a.tier, a.seed, progs=progs, shard=shard)
         except BaseException as ex:
             import traceback
             out[leg] = {"evaluations": 0, "violations": [{"what": "[%s] leg crashed: %r" % (leg, ex),
